@@ -16,6 +16,7 @@ BUDGET = {
     "quick": {"workers": 16, "cases": 1000, "secs": 60, "min_cases": 8000},
     "thorough": {"workers": 16, "rounds": 4, "cases": 2500, "secs": 420, "min_cases": 80000},
 }
+SIBLINGS = True  # consecutive cases with identical structure and different gate types
 ANCHORS = ["tx:limit_fanin", "tx:limit_fanout", "tx:insert_registers", "tx:acyclic_unroll"]
 
 
